@@ -402,8 +402,14 @@ def r01g(model, ctx):
         ("_eval_matches", f"{PYEVAL}::_eval_matches", PYEVAL),
         ("Value.matches", f"{AST_PY}::Value.matches", AST_PY),
     ]
+    from ..engine.inline import reachable_helpers
+    from ..engine.astutil import parent_map
     for name, ref, rel in sites:
-        fn = model.func(ref)
+        fn0 = model.func(ref)
+        # the decoder may live in helpers of the same class/module (extract-method): look at fn and what it calls
+        fn = ast.Module(body=reachable_helpers(model, ref), type_ignores=[])
+        fn.lineno = fn0.lineno
+        pm = parent_map(fn)
         maps = _pattern_decode(fn)
         mask_ok = MASK_MAP in maps
         val_ok = VALUE_MAP in maps
@@ -427,12 +433,12 @@ def r01g(model, ctx):
             e = m["_V_E"]
             safe = (isinstance(e, ast.BinOp) and isinstance(e.op, ast.Add) and const_str(e.left) == "0") or \
                    (isinstance(e, ast.BoolOp) and isinstance(e.op, ast.Or) and const_str(e.values[-1]) == "0")
-            p = mod.parent(n)
+            p = pm.get(n)
             while not safe and p is not None and p is not fn:
                 if isinstance(p, ast.If) and pmatch('"-" in pattern', p.test) is not None and \
                         any(n is x for s_ in p.body for x in ast.walk(s_)):
                     safe = True
-                p = mod.parent(p)
+                p = pm.get(p)
             ctx.check(safe, "R-01g", f"{name}:empty-pattern:{unparse(e)[:50]}",
                       "int(.., 2) argument cannot be the empty string",
                       f"`int({unparse(e)}, 2)` raises ValueError for the empty pattern that a zero-width selector "
